@@ -10,6 +10,7 @@ Record case := mkCase {
   c_funds : list Z;            (* initial balance of every reward denom, per user *)
   c_min : Z;                   (* MinValueForDistribution amount (denom = reward denom 0 = uosmo) *)
   c_lockable : list Z;         (* the chain's lockable durations as reported by the harness *)
+  c_ncl : nat;                 (* concentrated-liquidity pools 1 .. ncl created at set-up *)
   c_pre : list op;             (* set-up operations of the harness (routes registered with the pools), not observed *)
   c_ops : list op;
   c_expect : list Z }.
@@ -18,7 +19,7 @@ Definition NR : nat := 5.      (* reward denoms 0..4: uosmo usdc uatom stake ufo
 Definition NL : nat := 3.      (* lockable denoms 0..2 with supply; 3 has none *)
 
 Definition cfg_of (c : case) : config :=
-  mkCfg 0 (c_min c) 0 3 (c_lockable c) [0; 1; 2].
+  mkCfg 0 (c_min c) 0 3 (c_lockable c) [0; 1; 2] (map Z.of_nat (seq 1 (c_ncl c))).
 
 Definition zseq (n : nat) : list Z := map Z.of_nat (seq 0 n).
 
